@@ -130,10 +130,10 @@ Proof.
   { unfold cnt. apply inj_le. apply NoDup_incl_length; [apply NoDup_filter'; exact Hnd|].
     intros x Hx. apply filter_In in Hx as [Hx Hf]. unfold strictw in Hf. apply Z.ltb_lt in Hf.
     apply filter_In. split; [apply Hrec; assumption|]. unfold in_window. pose proof (Hle x Hx).
-    apply andb_true_iff. split; [apply Z.leb_le; lia|apply Z.ltb_lt; lia]. }
+    apply andb_true_iff. split; [apply Z.leb_le; lia|apply Z.leb_le; lia]. }
   assert (Hkept : forall x, In x done -> now - period < x -> In x kept).
   { intros x Hx Hr. apply filter_In. split; [apply Hrec; assumption|]. unfold in_window. pose proof (Hle x Hx).
-    apply andb_true_iff. split; [apply Z.leb_le; lia|apply Z.ltb_lt; lia]. }
+    apply andb_true_iff. split; [apply Z.leb_le; lia|apply Z.leb_le; lia]. }
   assert (Wr : forall l', s_write m now k (VZs l') period k = Some (Some (now + period), VZs l')).
   { intro l'. rewrite s_write_pos by exact Hp. rewrite String.eqb_refl. reflexivity. }
   assert (Mk : forall l' done', (forall x, In x done' -> now - period < x -> In x l') -> (forall x, In x done' -> x <= now) -> NoDup done' ->
@@ -187,7 +187,7 @@ Proof.
   assert (Klo : cnt (strictw now period) H <= Z.of_nat (length kept)).
   { unfold cnt. apply inj_le. apply NoDup_incl_length; [apply NoDup_filter'; exact Hnd|].
     intros x Hx. apply filter_In in Hx as [Hx Hf]. unfold strictw in Hf. apply Z.ltb_lt in Hf. pose proof (Hle x Hx).
-    apply filter_In. split; [apply Rrec; assumption|]. unfold in_window. apply andb_true_iff. split; [apply Z.leb_le; lia|apply Z.ltb_lt; lia]. }
+    apply filter_In. split; [apply Rrec; assumption|]. unfold in_window. apply andb_true_iff. split; [apply Z.leb_le; lia|apply Z.leb_le; lia]. }
   assert (Khi : Z.of_nat (length kept) <= cnt (closedw now period) H).
   { unfold cnt. apply inj_le. apply NoDup_incl_length; [apply NoDup_filter'; exact Rnd|].
     intros x Hx. apply filter_In in Hx as [Hx Hf]. unfold in_window in Hf. apply andb_true_iff in Hf as [Hf _].
@@ -204,7 +204,7 @@ Proof.
     + intros x Hx. apply in_app_iff in Hx as [Hx|[<-|[]]]; [right; apply Rsub; apply filter_In in Hx; tauto|left; reflexivity].
     + intros x [<-|Hx] Hr; apply in_app_iff; [right; left; reflexivity|left].
       pose proof (Hle x Hx). apply filter_In. split; [apply Rrec; [exact Hx|lia]|].
-      unfold in_window. apply andb_true_iff. split; [apply Z.leb_le; lia|apply Z.ltb_lt; lia].
+      unfold in_window. apply andb_true_iff. split; [apply Z.leb_le; lia|apply Z.leb_le; lia].
   - intro E. rewrite Wr in E. discriminate.
   - intros x [<-|Hx]; [lia|]. pose proof (Hle x Hx). lia.
   - constructor; [|exact Hnd]. intro Hin. pose proof (Hle now Hin). lia.
